@@ -71,6 +71,7 @@ type ClientSpec struct {
 	Pass  string `json:"pass"`
 	Phase int64  `json:"phase_ns"`
 	Kind  string `json:"kind,omitempty"` // raw (default) | real
+	L     int    `json:"listener,omitempty"` // index of the server listener this client talks to (cross-listener world)
 }
 
 type PeerSpec struct {
